@@ -577,6 +577,8 @@ fn fee_scenario(seed: u64, thorough: bool) -> Result<FeeOut, String> {
 								if *pins == ins && fee + noise < *pfee { out.oracle.push(format!("replacement of {} claim {} pays LESS fee than the transaction it replaces: {} -> {} sat, same inputs (targets {}; {})", what, hex(&cid[..4]), pfee, fee, hist.join(", "), desc)); }
 								else if rate * 100 < prate * 99 { out.oracle.push(format!("replacement of {} claim {} pays a LOWER feerate than the transaction it replaces: {} -> {} sat/kW (fee {} -> {}, weight {} -> {}; targets {}; {})", what, hex(&cid[..4]), prate, rate, pfee, fee, pweight, weight, hist.join(", "), desc)); }
 							}
+							// the funded package is meant to reach the target it was told (4 WU of signature-size noise)
+							if (fee + 4 * target as u64 / 1000 + 2) * 1000 / weight < target as u64 { out.oracle.push(format!("funded {} package of claim {} pays {} sat/kW (fee {} over weight {}), below its target {} sat/kW ({})", what, hex(&cid[..4]), fee * 1000 / weight, fee, weight, target, desc)); }
 							last_funded.insert(cid, (ins, fee, weight));
 						}
 						let _ = n_in;
